@@ -93,6 +93,42 @@ theorem answered_true_is_durable {s : St} (h : Inv s) (inputs : List Nat) (ok : 
       · cases hans
   · cases hans
 
+/-! ### `batch` must keep the maximum
+
+`answered_true_is_durable` is about the accumulator `acc = max` of the batch's inputs
+(`FsyncCoalescingCore::batch` returns `std::cmp::max(acc, seen)`).  If `batch` returned the last
+input seen instead ("requests queue in the order their writes completed, so the last one is the
+high-water mark" — false: `ConcurrentLogBuilder::fsync()` submits 0, and an appender can reach the
+fsync queue after a later writer), a batch ending in a stale watermark takes the `synced >= acc`
+shortcut, no `fdatasync` is issued, and a member whose bytes were written after the last
+`fdatasync` is answered `true`. -/
+
+/-- the accumulator of a core whose `batch` returns `seen` -/
+def accSeen (inputs : List Nat) : Nat := inputs.foldl (fun _ x => x) 0
+
+/-- `step` with that accumulator, everything else unchanged -/
+def stepSeen (s : St) : Ev → St × Option Bool
+  | .wrote w => ({ s with written := max s.written w }, none)
+  | .work inputs ok =>
+    if (∀ i ∈ inputs, i ≤ s.written) then
+      if s.synced ≥ accSeen inputs then (s, some true)
+      else if ok then ({ s with synced := accSeen inputs, durable := s.written }, some true)
+      else (s, some false)
+    else (s, none)
+
+/-- **C12** the as-mutated core loses durability: 5 bytes are synced and durable, 10 are written;
+    the batch `{append with watermark 10, fsync() with watermark 0}` is answered `true` although
+    offset 10 is not covered by any returned `fdatasync` — while the real core (`max`) issues the
+    `fdatasync` and makes it durable -/
+theorem batch_returns_seen_loses_durability :
+    ∃ (s : St) (inputs : List Nat), Inv s ∧ (∀ i ∈ inputs, i ≤ s.written)
+      ∧ (stepSeen s (.work inputs true)).2 = some true
+      ∧ (∃ i ∈ inputs, (stepSeen s (.work inputs true)).1.durable < i)
+      ∧ (step s (.work inputs true)).2 = some true
+      ∧ (∀ i ∈ inputs, i ≤ (step s (.work inputs true)).1.durable) := by
+  refine ⟨⟨5, 10, 5⟩, [10, 0], ⟨by decide, by decide⟩, by decide, by decide, ⟨10, by decide, by decide⟩, by decide, by decide⟩
+
 end Blue.FsyncCore
 
 #print axioms Blue.FsyncCore.answered_true_is_durable
+#print axioms Blue.FsyncCore.batch_returns_seen_loses_durability
